@@ -1903,6 +1903,153 @@ def _append_loops_to_extend(fn) -> int:
     return n
 
 
+def _list_then_yield_from(fn) -> int:
+    """acc = []; ... acc.append(x) ...; yield from acc      ->   ... yield x ...
+    in a generator, for a local list that is only ever appended to between its creation and the single `yield from` that
+    hands it out (a spliced helper that returned a list): the same values in the same order."""
+    if isinstance(fn, ast.Lambda):
+        return 0
+    done = 0
+    for lst in _blocks_of(fn):
+        for st in list(lst):
+            if not (isinstance(st, ast.Expr) and isinstance(st.value, ast.YieldFrom) and isinstance(st.value.value, ast.Name)):
+                continue
+            acc = st.value.value.id
+            own = list(walk_no_nested(fn))
+            stores = [x for x in own if isinstance(x, ast.Name) and x.id == acc and isinstance(x.ctx, (ast.Store, ast.Del))]
+            if len(stores) != 1:
+                continue
+            init = parent_of(fn, stores[0])
+            if not (isinstance(init, ast.Assign) and len(init.targets) == 1 and isinstance(init.value, ast.List) and not init.value.elts and init in lst
+                    and lst.index(init) < lst.index(st)):
+                continue
+            loads = [x for x in own if isinstance(x, ast.Name) and x.id == acc and isinstance(x.ctx, ast.Load) and x is not st.value.value]
+            appends = []
+            ok = True
+            for x in loads:
+                a = parent_of(fn, x)
+                c = parent_of(fn, a) if isinstance(a, ast.Attribute) else None
+                e = parent_of(fn, c) if isinstance(c, ast.Call) else None
+                if isinstance(a, ast.Attribute) and a.attr == "append" and isinstance(c, ast.Call) and c.func is a and len(c.args) == 1 and not c.keywords \
+                        and isinstance(e, ast.Expr) and e.value is c:
+                    appends.append((e, c))
+                else:
+                    ok = False
+            between = lst[lst.index(init) + 1: lst.index(st)]
+            inside = {id(y) for b in between for y in ast.walk(b)}
+            if not ok or not appends or not all(id(e) in inside for e, _c in appends):
+                continue
+            if any(isinstance(y, (ast.Yield, ast.YieldFrom)) for b in between for y in ast.walk(b)):
+                continue  # (other values yielded in between would change the order)
+            for e, c in appends:
+                e.value = ast.copy_location(ast.Yield(value=c.args[0]), c)
+            lst.remove(init)
+            lst.remove(st)
+            done += 1
+    if done:
+        ast.fix_missing_locations(fn)
+    return done
+
+
+def _filter_loops_to_comprehension(fn) -> int:
+    """kept = []
+       for d in ds:
+           if excluded(d): continue
+           kept.append(d)                 ->   kept = [d for d in ds if not excluded(d)]
+    A list initialised empty and immediately filled by a loop whose body is nothing but guard-`continue`s (or one guarding `if`)
+    around a single append: the filtering comprehension it spells out."""
+    if isinstance(fn, ast.Lambda):
+        return 0
+    done = 0
+    for lst in _blocks_of(fn):
+        i = 0
+        while i + 1 < len(lst):
+            a, loop = lst[i], lst[i + 1]
+            i += 1
+            if not (isinstance(a, ast.Assign) and len(a.targets) == 1 and isinstance(a.targets[0], ast.Name) and isinstance(a.value, ast.List) and not a.value.elts
+                    and isinstance(loop, ast.For) and not loop.orelse and loop.body):
+                continue
+            acc = a.targets[0].id
+            conds: list[ast.expr] = []
+            body = list(loop.body)
+            ok = True
+            while len(body) > 1:
+                g = body[0]
+                if isinstance(g, ast.If) and not g.orelse and len(g.body) == 1 and isinstance(g.body[0], ast.Continue):
+                    conds.append(ast.UnaryOp(op=ast.Not(), operand=g.test))
+                    body = body[1:]
+                else:
+                    ok = False
+                    break
+            if not ok or len(body) != 1:
+                continue
+            last = body[0]
+            if isinstance(last, ast.If) and not last.orelse and len(last.body) == 1:
+                conds.append(last.test)
+                last = last.body[0]
+            if not (isinstance(last, ast.Expr) and isinstance(last.value, ast.Call) and isinstance(last.value.func, ast.Attribute) and last.value.func.attr == "append"
+                    and isinstance(last.value.func.value, ast.Name) and last.value.func.value.id == acc and len(last.value.args) == 1 and not last.value.keywords):
+                continue
+            tnames = {x.id for x in ast.walk(loop.target) if isinstance(x, ast.Name)}
+            inside = {id(x) for x in ast.walk(loop)}
+            if any(isinstance(x, ast.Name) and x.id == acc for c in conds for x in ast.walk(c)):
+                continue
+            if any(isinstance(x, ast.Name) and x.id in tnames and id(x) not in inside for x in ast.walk(fn)):
+                continue  # the loop variable is used afterwards
+            if any(isinstance(x, (ast.Yield, ast.YieldFrom, ast.Await, ast.NamedExpr)) for x in ast.walk(loop)):
+                continue
+            comp = ast.ListComp(elt=last.value.args[0], generators=[ast.comprehension(target=loop.target, iter=loop.iter, ifs=conds, is_async=0)])
+            a.value = ast.copy_location(comp, loop)
+            lst.remove(loop)
+            done += 1
+    if done:
+        ast.fix_missing_locations(fn)
+    return done
+
+
+def _propagate_attr_and_thunk_temps(fn) -> int:
+    """__i_cache = self._table ... __i_cache[k] = v    ->   self._table[k] = v        (the attribute is not rebound in the function)
+       __i_load = lambda: load(d) ... __i_load()       ->   load(d)                  (a parameterless lambda that is only called)
+    for the temporaries the splicing itself introduces when a helper takes a table or a thunk as a parameter."""
+    if isinstance(fn, ast.Lambda) or not fn.args.args:
+        return 0
+    selfname = fn.args.args[0].arg
+    own = list(walk_no_nested(fn))
+    stores: dict[str, int] = {}
+    for x in own:
+        if isinstance(x, ast.Name) and isinstance(x.ctx, (ast.Store, ast.Del)):
+            stores[x.id] = stores.get(x.id, 0) + 1
+    rebound_attrs = {x.attr for x in own if isinstance(x, ast.Attribute) and isinstance(x.ctx, (ast.Store, ast.Del)) and isinstance(x.value, ast.Name) and x.value.id == selfname}
+    done = 0
+    for lst in _blocks_of(fn):
+        for st in list(lst):
+            if not (isinstance(st, ast.Assign) and len(st.targets) == 1 and isinstance(st.targets[0], ast.Name) and st.targets[0].id.startswith("__")
+                    and stores.get(st.targets[0].id) == 1):
+                continue
+            v, nm = st.value, st.targets[0].id
+            uses = [x for x in ast.walk(fn) if isinstance(x, ast.Name) and x.id == nm and isinstance(x.ctx, ast.Load)]
+            if not uses:
+                continue
+            if isinstance(v, ast.Attribute) and isinstance(v.value, ast.Name) and v.value.id == selfname and v.attr not in rebound_attrs and stores.get(selfname, 0) == 0:
+                for u in uses:
+                    _replace_node(fn, u, ast.copy_location(ast.Attribute(value=ast.Name(id=selfname, ctx=ast.Load()), attr=v.attr, ctx=ast.Load()), u))
+                lst.remove(st)
+                done += 1
+            elif isinstance(v, ast.Lambda) and not (v.args.args or v.args.kwonlyargs or v.args.vararg or v.args.kwarg or v.args.posonlyargs):
+                calls = [parent_of(fn, u) for u in uses]
+                free = {y.id for y in ast.walk(v.body) if isinstance(y, ast.Name)}
+                if all(isinstance(c, ast.Call) and c.func is u and not c.args and not c.keywords for c, u in zip(calls, uses)) \
+                        and all(stores.get(f_, 0) <= 1 for f_ in free) and len(uses) == 1:
+                    _replace_node(fn, calls[0], ast.copy_location(clone(v.body), calls[0]))
+                    lst.remove(st)
+                    done += 1
+            if not lst:
+                lst.append(ast.copy_location(ast.Pass(), st))
+    if done:
+        ast.fix_missing_locations(fn)
+    return done
+
+
 def _scalar_replace_records(repo: Repo, mod, fn) -> int:
     """fmt = _Opts(width=w, semantic=s) ... fmt.width ... fmt.semantic      ->   fmt__width = w; fmt__semantic = s ... fmt__width ...
     for a local that is bound once to a freshly built record of the package (dataclass / NamedTuple without custom
@@ -2087,6 +2234,9 @@ def build_inlined_repo(root=None, keep: set[str] | None = None) -> tuple[Repo, d
                 _append_loops_to_extend(fn_node)
                 for _round in range(3):  # records inside records, copies of copies
                     _propagate_copies(fn_node)
+                    _propagate_attr_and_thunk_temps(fn_node)
+                    _list_then_yield_from(fn_node)
+                    _filter_loops_to_comprehension(fn_node)
                     got = _scalar_replace_records(work, mod, fn_node)
                     sra += got
                     if not got:
